@@ -8,6 +8,53 @@ from __future__ import annotations
 _base = {}
 
 
+_SIMPLE = (type(None), bool, int, float, str)
+
+
+def snapshot_module_globals():
+    """Called once right after exo has been imported (before any procedure is defined): remembers,
+    for every exo module, the module-level names that hold a simple value (None / bool / number /
+    string) or an EMPTY dict / list / set.  reset_exo_globals() puts them back, so that lazily
+    created singletons, memo tables and flags - including ones this harness has never heard of -
+    do not carry state from one simulated run into the next one of the same child."""
+    import sys as _sys
+
+    if "modglobals" in _base:
+        return
+    snap = {}
+    for mname, mod in list(_sys.modules.items()):
+        if not (mname == "exo" or mname.startswith("exo.")) or mod is None:
+            continue
+        d = {}
+        for k, v in list(vars(mod).items()):
+            if k.startswith("__"):
+                continue
+            if isinstance(v, _SIMPLE):
+                d[k] = ("val", v)
+            elif type(v) in (dict, list, set) and len(v) == 0:
+                d[k] = ("empty", None)
+        snap[mname] = d
+    _base["modglobals"] = snap
+
+
+def _restore_module_globals():
+    import sys as _sys
+
+    for mname, d in _base.get("modglobals", {}).items():
+        mod = _sys.modules.get(mname)
+        if mod is None:
+            continue
+        md = vars(mod)
+        for k, (kind, v) in d.items():
+            cur = md.get(k, _base)
+            if kind == "val":
+                if cur is not v and cur != v or type(cur) is not type(v):
+                    md[k] = v
+            else:
+                if type(cur) in (dict, list, set) and len(cur):
+                    cur.clear()
+
+
 def snapshot_base():
     """Called once in the parent after preload."""
     from exo.core.prelude import Sym
@@ -39,6 +86,7 @@ def reset_exo_globals():
         getattr(NE, nm).clear()
     if "sym" in _base:
         Sym._unq_count = _base["sym"]
+    _restore_module_globals()
     # content-keyed memo tables (functools.cache / lru_cache) inside exo: harmless
     # semantically, but they change how many line events a call executes
     import sys as _sys
